@@ -317,8 +317,91 @@ def probe_cancelled_sender(seed, cases=30):
     return fails
 
 
+def probe_burst(seed, cases=6):
+    """Directed family (Spec on the implementation): *many* events waiting at once. One callback sends N events in a row
+    (N drawn between 800 and 4000 — more than any plausible bound of a queue), on the sync and on the async engine; a
+    second sender task adds its own burst while the first one is suspended in its callback (async). Every event sent
+    is processed exactly once, in the order sent, after the sending transition has completed; every nested call
+    returned None."""
+    import asyncio
+    import random
+    import warnings
+    from statemachine import State, StateMachine
+    fails = []
+    for i in range(cases):
+        rng = random.Random(f"{seed}:burst:{i}")
+        n = rng.randint(800, 4000)
+        is_async = i % 2 == 1
+        log = []
+        rets = []
+
+        with warnings.catch_warnings():
+            warnings.simplefilter("ignore")
+            ns = dict(idle=State(initial=True), busy=State())
+            ns["start"] = ns["idle"].to(ns["busy"])
+            ns["tick"] = ns["busy"].to.itself(internal=True)
+            if is_async:
+                async def on_start(self):
+                    for k in range(n):
+                        r = self.send("tick", k=k)
+                        rets.append(await r if asyncio.iscoroutine(r) else r)
+                        if k == n // 2:
+                            await asyncio.sleep(0)
+                    log.append("start done")
+
+                async def on_tick(self, k):
+                    log.append(k)
+            else:
+                def on_start(self):
+                    for k in range(n):
+                        rets.append(self.send("tick", k=k))
+                    log.append("start done")
+
+                def on_tick(self, k):
+                    log.append(k)
+            ns["on_start"], ns["on_tick"] = on_start, on_tick
+            M = type("Burst", (StateMachine,), ns)
+            sm = M()
+            if is_async:
+                other = []
+
+                async def main():
+                    await sm.activate_initial_state()
+                    t1 = asyncio.ensure_future(sm.send("start"))
+                    await asyncio.sleep(0)
+                    await asyncio.sleep(0)
+                    # a second sender, while the first one is inside its callback: its events queue up behind
+                    for k in range(n, n + 700):
+                        other.append(await sm.send("tick", k=k))
+                    await t1
+                asyncio.run(main())
+                want = ["start done"] + list(range(n + 700))
+                got_sorted_tail = log[:1] + sorted(log[1:], key=lambda x: x if isinstance(x, int) else -1)
+                if log[:1] != ["start done"] or got_sorted_tail != want or len(log) != len(want):
+                    fails.append(f"burst of {n}+700 events (async): {len(log) - 1} processed, first entries {log[:3]}, "
+                                 f"missing {sorted(set(want[1:]) - set(log[1:]))[:5]}")
+                # per sender: in the order sent
+                a = [x for x in log[1:] if isinstance(x, int) and x < n]
+                b = [x for x in log[1:] if isinstance(x, int) and x >= n]
+                if a != sorted(a) or b != sorted(b):
+                    fails.append(f"burst of {n}+700 events (async): a sender's events were reordered")
+            else:
+                sm.send("start")
+                want = ["start done"] + list(range(n))
+                if log != want:
+                    fails.append(f"burst of {n} events (sync): {len(log) - 1} processed, first entries {log[:3]}, "
+                                 f"first missing {sorted(set(want[1:]) - set(log[1:]))[:5]}")
+            if any(r is not None for r in rets):
+                fails.append(f"burst of {n} events: a nested send returned {[r for r in rets if r is not None][:1]}")
+    return fails
+
+
 def run(ctx):
     lean_obligations(ctx)
+    pb = probe_burst(ctx.seed, 6 if ctx.tier == "quick" else 40)
+    ctx.coverage["burst_cases"] = 6 if ctx.tier == "quick" else 40
+    if pb:
+        ctx.violation(ctx.write_replay("burst.txt", "\n".join(pb) + "\n"), pb[0][:160])
     pc = probe_cancelled_sender(ctx.seed)
     ctx.coverage["cancelled_sender_cases"] = 30
     if pc:
